@@ -13,7 +13,9 @@ CAPS = ("and who already tests with unusual and algebraically structured inputs,
         "installed logger, code running while the thread unwinds or on other threads, earlier activity of other instances in the "
         "same process (including real-clock JitterRng::new()), generic and concrete-type call sites, used, cloned, copied and "
         "deserialised objects (through slices, readers with short reads, serde_json::Value, snapshots embedded in larger "
-        "documents, damaged snapshots), several threads and several processes ")
+        "documents, damaged snapshots), several threads and several processes, every environment variable whose name occurs in the "
+        "compiled library set, documented panics (set_rounds(0)) that the caller contains before going on, trait implementations "
+        "that did not exist before (probed at compile time), thousands of consecutive seedings, timers that count in steps ")
 for f in sorted(glob.glob(f"/tmp/seed/C??-{prev}.full.txt")):
     pid = os.path.basename(f)[:3]
     s = open(f).read().replace(f"{pid}-{prev}", f"{pid}-{new}")
